@@ -1716,7 +1716,12 @@ def eq_test(t, labs):
     if pol is None or not isinstance(a, tuple) or not a:
         return None
     if a[0] == "binop" and a[1] in ("Eq", "Ne"):
-        return frozenset((a[2], a[3])), (pol if a[1] == "Eq" else not pol)
+        x, y = a[2], a[3]
+        # derived PartialEq of a field-less enum compares discriminants
+        dv = lambda z: isinstance(z, tuple) and len(z) == 4 and z[0] == "call" and z[1].endswith("intrinsics::discriminant_value") and z[2]
+        if dv(x) and dv(y):
+            x, y = x[2][0], y[2][0]
+        return frozenset((x, y)), (pol if a[1] == "Eq" else not pol)
     if len(a) == 4 and a[0] == "call" and isinstance(a[1], str) and len(a[2]) == 2:
         from . import names as _n
         if _n.is_(a[1], "PartialEq::eq"):
@@ -1909,6 +1914,37 @@ def contradicting_edges(body, decisions):
             if sc != succ:
                 out.append((sb, sc))
     return out
+
+
+def flagset(t, depth=0):
+    """the set of named bit-flag constants OR-ed together in a flags-valued term (`Flags::empty() | A | B`,
+    `f |= A`, `Flags::from_bits_retain(A.bits() | B.bits())`, the expanded bitflags internals ...); None if unknown"""
+    from . import names as _n
+    if depth > 20 or not isinstance(t, tuple) or not t:
+        return None
+    if t == ("const", 0):
+        return set()
+    if t[0] == "const" and isinstance(t[1], str) and "::" in t[1]:
+        return {t[1].rsplit("::", 1)[-1]}
+    if t[0] == "agg" and len(t[3]) == 1:
+        return flagset(t[3][0][1], depth + 1)
+    if t[0] == "field" and t[2] == "0":
+        return flagset(t[1], depth + 1)
+    if t[0] == "binop" and t[1] == "BitOr":
+        a, b = flagset(t[2], depth + 1), flagset(t[3], depth + 1)
+        return None if a is None or b is None else a | b
+    if len(t) == 4 and t[0] == "call" and isinstance(t[1], str):
+        if t[1].endswith("::empty") and not t[2]:
+            return set()
+        if (_n.is_(t[1], "BitOr::bitor") or t[1].endswith("::union")) and len(t[2]) == 2:
+            a, b = flagset(t[2][0], depth + 1), flagset(t[2][1], depth + 1)
+            return None if a is None or b is None else a | b
+        if (t[1].endswith("::bits") or t[1].endswith("::from_bits_retain") or t[1].endswith("::from_bits_truncate")) and len(t[2]) == 1:
+            return flagset(t[2][0], depth + 1)
+    if len(t) == 4 and t[0] == "upd" and isinstance(t[1], str) and (_n.is_(t[1], "BitOrAssign::bitor_assign") or t[1].endswith("::insert")) and len(t[3]) == 1:
+        a, b = flagset(t[2], depth + 1), flagset(t[3][0], depth + 1)
+        return None if a is None or b is None else a | b
+    return None
 
 
 def byte_segments(t):
